@@ -16,9 +16,15 @@ RULE = (
     "python loop for difference and gradient; per-leading-index evaluation for independence. Non-trivial = mesh has "
     "a boundary edge, or n_face != n_node, or rank >= 2."
 )
-ASSUMPTIONS = ["edge_node / edge_face tables are the grid's own (decided by C02/C03)", "arccos law-of-cosines rounding: tolerance max(1e-10, 5e-16/d) rad on distances (the formula loses eps/d for very short edges)"]
+ASSUMPTIONS = ["edge_node / edge_face tables are the grid's own (decided by C02/C03)", "tolerance on distances max(1e-13, 1e-12*d) rad (rounding of coordinates given in degrees)"]
 MIN_EVAL = {"quick": {"edge_node_distances": 70, "edge_face_distances": 70, "supplied_distances_carried": 30, "difference": 300, "gradient": 200, "normalized_gradient": 100, "dims_grid": 300},
             "thorough": {"edge_node_distances": 1500, "edge_face_distances": 1500, "supplied_distances_carried": 600, "difference": 6000, "gradient": 4000, "normalized_gradient": 2000, "dims_grid": 6000}}
+
+
+def DTOL(d):
+    """Tolerance on a great-circle distance d (radians): positions come as degrees (1 ulp at 360 = 6e-14 degrees = 1e-15 rad per
+    coordinate) - 1e-13 rad absolute, 1e-12 relative."""
+    return np.maximum(1e-13, 1e-12 * np.asarray(d, dtype=float))
 
 
 def cases(tier, seed):
@@ -91,12 +97,12 @@ def run_case(ctx, case):
     else:
         want = ref.angle(nodeP[en[:, 0]], nodeP[en[:, 1]])
         # arccos of the law of cosines: absolute error ~ eps / distance for very short edges
-        bad = np.argwhere(~(np.abs(end - want) <= np.maximum(1e-10, 5e-16 / np.maximum(want, 1e-300))))
+        bad = np.argwhere(~(np.abs(end - want) <= DTOL(want)))
         ctx.check("edge_node_distances", end.shape == (n_edge,) and len(bad) == 0, sig0,
                   None if not len(bad) else {"edge": int(bad[0][0]), "got": float(end[bad[0][0]]), "want": float(want[bad[0][0]]), "mesh": d})
         wantf = np.zeros(n_edge)
         wantf[interior] = ref.angle(faceP[ef[interior, 0]], faceP[ef[interior, 1]])
-        bad = np.argwhere(~(np.abs(efd - wantf) <= np.maximum(1e-10, np.where(wantf > 0, 5e-16 / np.maximum(wantf, 1e-300), 0.0))))
+        bad = np.argwhere(~(np.abs(efd - wantf) <= DTOL(wantf)))
         ctx.check("edge_face_distances", efd.shape == (n_edge,) and len(bad) == 0, dict(sig0, n_face_vs_n_node="gt" if m.n_face > m.n_node else "le"),
                   None if not len(bad) else {"edge": int(bad[0][0]), "got": float(efd[bad[0][0]]), "want": float(wantf[bad[0][0]]), "boundary": bool(~interior[bad[0][0]]), "mesh": d})
     # data operators
@@ -185,11 +191,11 @@ def run_case(ctx, case):
                 w2 = np.zeros(len(ef2))
                 w2[int2] = ref.angle(F2[ef2[int2, 0]], F2[ef2[int2, 1]])
                 got2 = np.asarray(g2.edge_face_distances.values, dtype=float)
-                ctx.check("edge_face_distances", got2.shape == w2.shape and bool(np.all(np.abs(got2 - w2) <= np.maximum(1e-10, np.where(w2 > 0, 5e-16 / np.maximum(w2, 1e-300), 0.0)))),
+                ctx.check("edge_face_distances", got2.shape == w2.shape and bool(np.all(np.abs(got2 - w2) <= DTOL(w2))),
                           dict(sig0, twin="same_connectivity_other_positions"), {"mesh": d})
                 wn2 = ref.angle(P2[en2[:, 0]], P2[en2[:, 1]])
                 gn2 = np.asarray(g2.edge_node_distances.values, dtype=float)
-                ctx.check("edge_node_distances", bool(np.all(np.abs(gn2 - wn2) <= np.maximum(1e-10, 5e-16 / np.maximum(wn2, 1e-300)))), dict(sig0, twin="same_connectivity_other_positions"), {"mesh": d})
+                ctx.check("edge_node_distances", bool(np.all(np.abs(gn2 - wn2) <= DTOL(wn2))), dict(sig0, twin="same_connectivity_other_positions"), {"mesh": d})
                 ctx.observe("deformed_twins")
         except Exception as e:
             ctx.check("no_exception", False, dict(sig0, stage="deformed_twin", exc=core.exc_sig(e)), {"exc": repr(e), "mesh": d})
@@ -198,7 +204,7 @@ def run_case(ctx, case):
         again = (np.asarray(g.edge_node_connectivity.values), np.asarray(g.edge_face_connectivity.values),
                  np.asarray(g.edge_node_distances.values, dtype=float), np.asarray(g.edge_face_distances.values, dtype=float))
         for nm, a0, a1 in zip(("edge_node_connectivity", "edge_face_connectivity", "edge_node_distances", "edge_face_distances"), (en0, ef0, end0, efd0), again):
-            ctx.check("grid_unchanged_by_operators", a0.shape == a1.shape and np.array_equal(a0, a1), dict(sig0, table=nm),
+            ctx.check("grid_unchanged_by_operators", a0.shape == a1.shape and np.array_equal(a0, a1, equal_nan=a0.dtype.kind == "f"), dict(sig0, table=nm),
                       {"first_diff": int(np.argwhere(np.ravel(a0 != a1))[0][0]) if a0.shape == a1.shape and np.any(a0 != a1) else None, "mesh": d})
     except Exception as e:
         ctx.check("no_exception", False, dict(sig0, stage="reobserve", exc=core.exc_sig(e)), {"exc": repr(e), "mesh": d})
